@@ -176,6 +176,8 @@ impl Prop for C11 {
         if let Some(r) = repl { src = replace_name(&src, n, &r); }
       }
     }
+    // row separators: `; ` as generated, `;` + newline, or a bare newline (by the hash of the case id)
+    match (h >> 61) & 3 { 1 => { src = src.replace("; ", ";\n "); forms.push_str("+sep:semicolon-newline"); } 2 => { src = src.replace("; ", "\n "); forms.push_str("+sep:newline"); } _ => {} }
     let src = src.as_str();
     let res = s.eval(src);
     let arm = s.last_arm();
